@@ -643,49 +643,91 @@ theorem lSat_congr (L L' : List Route) (r : Route) (q : Req) (h : ∀ x, x ∈ L
 
 /-! ### traces: the routes listed under the accepted buckets -/
 
-theorem routesOfList_append (a b : List Trace) :
-    routesOfList (a ++ b) = routesOfList a ++ routesOfList b := by
+theorem rawRoutesOfList_append (a b : List Trace) :
+    rawRoutesOfList (a ++ b) = rawRoutesOfList a ++ rawRoutesOfList b := by
   induction a with
-  | nil => simp [routesOfList]
-  | cons t ts ih => simp [routesOfList, ih]
+  | nil => simp [rawRoutesOfList]
+  | cons t ts ih => simp [rawRoutesOfList, ih]
 
-theorem routesOfList_cons (t : Trace) (ts : List Trace) :
-    routesOfList (t :: ts) = t.routes ++ routesOfList ts := by simp [routesOfList]
+theorem rawRoutesOfList_cons (t : Trace) (ts : List Trace) :
+    rawRoutesOfList (t :: ts) = t.rawRoutes ++ rawRoutesOfList ts := by simp [rawRoutesOfList]
 
-theorem routesOfList_singleton (t : Trace) : routesOfList [t] = t.routes := by
-  simp [routesOfList]
+theorem rawRoutesOfList_singleton (t : Trace) : rawRoutesOfList [t] = t.rawRoutes := by
+  simp [rawRoutesOfList]
 
-@[simp] theorem routesOfList_nil : routesOfList [] = [] := by simp [routesOfList]
+@[simp] theorem rawRoutesOfList_nil : rawRoutesOfList [] = [] := by simp [rawRoutesOfList]
 
-theorem Trace.routes_mk (m e : Bool) (c : Nat) (info : TInfo) (ch : List Trace) :
-    (Trace.mk m e c info ch).routes = info.routes ++ routesOfList ch := by simp [Trace.routes]
+theorem Trace.rawRoutes_mk (m e : Bool) (c : Nat) (info : TInfo) (ch : List Trace) :
+    (Trace.mk m e c info ch).rawRoutes = info.routes ++ rawRoutesOfList ch := by simp [Trace.rawRoutes]
 
-theorem mem_routesOfList_map {α : Type} (l : List α) (f : α → Trace) (r : Route) :
-    r ∈ routesOfList (l.map f) ↔ ∃ a ∈ l, r ∈ (f a).routes := by
+theorem mem_rawRoutesOfList_map {α : Type} (l : List α) (f : α → Trace) (r : Route) :
+    r ∈ rawRoutesOfList (l.map f) ↔ ∃ a ∈ l, r ∈ (f a).rawRoutes := by
   induction l with
   | nil => simp
-  | cons a l ih => simp [routesOfList_cons, ih]
+  | cons a l ih => simp [rawRoutesOfList_cons, ih]
 
-theorem mem_routesOfList_filterMap {α : Type} (l : List α) (f : α → Option Trace) (r : Route) :
-    r ∈ routesOfList (l.filterMap f) ↔ ∃ a ∈ l, ∃ t, f a = some t ∧ r ∈ t.routes := by
+theorem mem_rawRoutesOfList_filterMap {α : Type} (l : List α) (f : α → Option Trace) (r : Route) :
+    r ∈ rawRoutesOfList (l.filterMap f) ↔ ∃ a ∈ l, ∃ t, f a = some t ∧ r ∈ t.rawRoutes := by
   induction l with
   | nil => simp
   | cons a l ih =>
     simp only [List.filterMap_cons]
     cases hf : f a with
     | none => simp [ih, hf]
-    | some t => simp [routesOfList_cons, ih, hf]
+    | some t => simp [rawRoutesOfList_cons, ih, hf]
 
 /-- the traces of an accepted bucket list exactly the routes the bucket matches -/
 theorem mem_bucket_trace (s : LState I K) (L : List Route) (h : LRepr IL keysOf s L) (hU : UIds L)
     (q : Req) (r : Route) (k : K) (b : I.M) (hl : alookup k s.map = some b) :
-    r ∈ routesOfList (I.trace b q) ↔ r ∈ I.matchReq b q :=
+    r ∈ rawRoutesOfList (I.trace b q) ↔ r ∈ I.matchReq b q :=
   IL.mem_trace _ _ q r (h.some k b hl) (hU.filter _)
 
 theorem mem_any_trace (s : LState I K) (L : List Route) (h : LRepr IL keysOf s L) (hU : UIds L)
     (q : Req) (r : Route) :
-    r ∈ routesOfList (I.trace s.any q) ↔ r ∈ I.matchReq s.any q :=
+    r ∈ rawRoutesOfList (I.trace s.any q) ↔ r ∈ I.matchReq s.any q :=
   IL.mem_trace _ _ q r h.any (hU.filter _)
+
+/-! ### `get_routes_from_traces` (reports every id once) versus all stored routes -/
+
+theorem mem_dedupIds (L : List Route) (hU : UIds L) (l : List Route) (hl : ∀ y ∈ l, y ∈ L) (x : Route) :
+    x ∈ dedupIds l ↔ x ∈ l := by
+  unfold dedupIds
+  rw [pushNew_mem L hU l x [] (by intro y hy; simp at hy) hl]
+  simp
+
+mutual
+theorem Trace.mem_routes_iff (L : List Route) (hU : UIds L) :
+    (t : Trace) → (∀ y ∈ t.rawRoutes, y ∈ L) → ∀ x, x ∈ t.routes ↔ x ∈ t.rawRoutes
+  | .mk m e c info children, h, x => by
+    have hch : ∀ y ∈ rawRoutesOfList children, y ∈ L := by
+      intro y hy; apply h; rw [Trace.rawRoutes_mk]; exact List.mem_append_right _ hy
+    have ih := mem_collectList_iff L hU children hch
+    have hl : ∀ y ∈ collectList children, y ∈ L := fun y hy => hch y ((ih y).1 hy)
+    simp only [Trace.routes, Trace.rawRoutes_mk, List.mem_append, mem_dedupIds L hU _ hl, ih x]
+theorem mem_collectList_iff (L : List Route) (hU : UIds L) :
+    (ts : List Trace) → (∀ y ∈ rawRoutesOfList ts, y ∈ L) → ∀ x, x ∈ collectList ts ↔ x ∈ rawRoutesOfList ts
+  | [], _, x => by simp [collectList]
+  | t :: ts, h, x => by
+    have h1 : ∀ y ∈ t.rawRoutes, y ∈ L := by
+      intro y hy; apply h; rw [rawRoutesOfList_cons]; exact List.mem_append_left _ hy
+    have h2 : ∀ y ∈ rawRoutesOfList ts, y ∈ L := by
+      intro y hy; apply h; rw [rawRoutesOfList_cons]; exact List.mem_append_right _ hy
+    simp only [collectList, rawRoutesOfList_cons, List.mem_append,
+      Trace.mem_routes_iff L hU t h1 x, mem_collectList_iff L hU ts h2 x]
+end
+
+/-- With unique ids, `get_routes_from_traces` lists exactly the routes stored in the traces. -/
+theorem mem_routesOfList_iff (L : List Route) (hU : UIds L) (ts : List Trace)
+    (h : ∀ y ∈ rawRoutesOfList ts, y ∈ L) (x : Route) :
+    x ∈ routesOfList ts ↔ x ∈ rawRoutesOfList ts := by
+  have ih := mem_collectList_iff L hU ts h
+  unfold routesOfList
+  rw [mem_dedupIds L hU _ (fun y hy => h y ((ih y).1 hy)), ih x]
+
+/-- ... and lists every id at most once, unconditionally. -/
+theorem routesOfList_nodupIds (ts : List Trace) : ((routesOfList ts).map (·.id)).Nodup := by
+  unfold routesOfList dedupIds
+  exact pushNew_nodupIds _ [] (by simp)
 
 end
 end Rio.Router
